@@ -101,6 +101,18 @@ pub fn sign_json<K>(
 where
     K: KeyPair,
 {
+    // Check the types before taking anything out of the object, so that it is left untouched if
+    // an error is returned.
+    match object.get("signatures") {
+        Some(CanonicalJsonValue::Object(signatures)) => {
+            if signatures.get(entity_id).is_some_and(|set| !set.is_object()) {
+                return Err(JsonError::not_multiples_of_type("signatures", JsonType::Object));
+            }
+        }
+        Some(_) => return Err(JsonError::not_of_type("signatures", JsonType::Object)),
+        None => {}
+    }
+
     let (signatures_key, mut signature_map) = match object.remove_entry("signatures") {
         Some((key, CanonicalJsonValue::Object(signatures))) => (Cow::Owned(key), signatures),
         Some(_) => return Err(JsonError::not_of_type("signatures", JsonType::Object)),
